@@ -31,9 +31,7 @@ def stats_of(obj):
     s = np.asarray(s)
     if s.ndim != 2 or s.shape[0] != 2:
         raise common.MachineryError("Standardize._stats no longer has the (2, D+1) layout the harness reads")
-    if s[0, -1] == 0:
-        return {"n": 0, "sum": [], "sq": []}
-    return arr_stats(s)
+    return arr_stats(s)  # (a zero count keeps its dimension: an instance loaded from an all-zero template)
 
 
 def arr_stats(s):
@@ -59,10 +57,14 @@ def inspect_file(path, kind):
 
 
 def expected_apply(st, x, axis, norm_var):
-    """(x - mean)/std per coefficient of `axis` from exact integer statistics."""
+    """(x - mean)/std per coefficient of `axis` from exact integer statistics (mean and variance are formed in
+    rational arithmetic, so a large offset with a small spread loses nothing)."""
+    from fractions import Fraction
     n = st["n"]
-    mean = np.array(st["sum"], dtype=np.float64) / n
-    var = np.array(st["sq"], dtype=np.float64) / n - mean ** 2
+    mean_q = [Fraction(int(a), n) for a in st["sum"]]
+    var_q = [Fraction(int(b), n) - m * m for b, m in zip(st["sq"], mean_q)]
+    mean = np.array([float(m) for m in mean_q], dtype=np.float64)
+    var = np.array([float(v) for v in var_q], dtype=np.float64)
     sl = [None] * x.ndim
     sl[axis] = slice(None)
     sl = tuple(sl)
@@ -71,6 +73,27 @@ def expected_apply(st, x, axis, norm_var):
         var = np.where(np.isclose(var, 0), 1.0, var)
         out = out / np.sqrt(var)[sl]
     return out
+
+
+def tolerance(st):
+    """Relative tolerance for apply(): E[x^2] - mean^2 in double precision loses about (E[x^2] / variance) ulps."""
+    n = st["n"]
+    worst = 1.0
+    for a, b in zip(st["sum"], st["sq"]):
+        var = b / n - (a / n) ** 2
+        if var > 1e-8:
+            worst = max(worst, (b / n) / var)
+    return 1e-12 + 4e-16 * worst
+
+
+# value regimes of a scenario: (scale, per-coefficient offsets, dtypes the values fit in)
+REGIMES = [
+    (1, (0, 0, 0), [np.float64, np.float32, np.int32, np.int16, np.int8]),
+    (1, (0, 0, 0), [np.float64, np.float32, np.int32, np.int16, np.int8]),
+    (20, (0, 0, 0), [np.float64, np.float32, np.int32, np.int16, np.int8]),   # squares do not fit int8
+    (60, (0, 0, 0), [np.float64, np.float32, np.int32, np.int16]),             # squares do not fit int16
+    (1, (1000, -750, 1000), [np.float64, np.float32, np.int32, np.int16]),     # offset >> spread (log-energy-like)
+]
 
 
 def layout_tensor(vs, rng, dtype):
@@ -105,6 +128,13 @@ def scripts():
                             break
                     if kind != "npz":
                         break
+        # a zero-count template written with numpy: loading it gives an instance without statistics, which cannot be saved
+        for k1 in keys:
+            for D in (1, 2):
+                out.append([("template", 0, (pn, kind, fn), k1, D), ("load", 1, (pn, kind, fn), k1), ("save", 1, (pn, kind, fn), k1, False),
+                            ("save", 1, (pn, kind, fn), k1, True), ("accv", 1), ("save", 1, (pn, kind, fn), k1, False), ("load", 2, (pn, kind, fn), k1),
+                            ("acct", 0), ("save", 0, (pn, kind, fn), k1, True), ("template", 0, (pn, kind, fn), k1, D), ("load", 0, (pn, kind, fn), k1),
+                            ("save", 0, (pn, kind, fn), "", False)])
     return out
 
 
@@ -126,6 +156,10 @@ def drive(run, tier, rng, focus):
             base = [None, None, None]              # stats loaded from file (dict) or None
             events = []
             D0 = rng.choice([1, 2, 2, 3])
+            scale, offsets, dtypes = REGIMES[tid % len(REGIMES)]
+
+            def pick(D):
+                return [scale * a + o for a, o in zip(rng.choice(vec_pool[D]), offsets)]
             nsteps = rng.randint(2, 7)
             script = scripted[tid - 1] if tid <= len(scripted) else None
             if script is not None:
@@ -135,7 +169,7 @@ def drive(run, tier, rng, focus):
                 if focus == "acc":
                     op = "accv" if r < 0.4 else "acct" if r < 0.8 else "save" if r < 0.9 else "load"
                 else:
-                    op = "accv" if r < 0.2 else "acct" if r < 0.3 else "save" if r < 0.75 else "load"
+                    op = "accv" if r < 0.2 else "acct" if r < 0.3 else "save" if r < 0.7 else "load" if r < 0.94 else "template"
                 i = rng.randrange(3)
                 forced = None
                 if script is not None:
@@ -143,25 +177,43 @@ def drive(run, tier, rng, focus):
                     op, i = forced[0], forced[1]
                 ev = {"op": op, "err": ""}
                 D = D0 if (rng.random() < 0.9 or script is not None) else rng.choice([1, 2, 3])
-                dtype = rng.choice([np.float64, np.float32, np.int32])
+                if forced is not None and forced[0] == "template":
+                    D0 = D = forced[4]
+                dtype = rng.choice(dtypes)
                 with warnings.catch_warnings():
                     warnings.simplefilter("ignore")
                     try:
                         if op == "accv":
-                            v = rng.choice(vec_pool[D])
+                            v = pick(D)
                             ev.update(i=i + 1, v=v)
                             x = np.array(v, dtype=dtype)
                             x.flags.writeable = False
                             objs[i].accumulate(x)
                             bags[i].append(v)
                         elif op == "acct":
-                            vs = [rng.choice(vec_pool[D]) for _ in range(rng.randint(2, 3))]
+                            vs = [pick(D) for _ in range(rng.randint(2, 3))]
                             t, axis = layout_tensor(vs, rng, dtype)
                             ev.update(i=i + 1, vs=vs, layout=[list(t.shape), axis],
                                       flat=[int(v) for v in t.reshape(-1)], shape=list(t.shape), axis1=(axis % t.ndim) + 1)
                             t.flags.writeable = False
                             objs[i].accumulate(t, axis)
                             bags[i].extend(vs)
+                        elif op == "template":
+                            pn, kind, fn = rng.choice(PATHS)
+                            key = rng.choice(["", "k"]) if kind == "npz" else ""
+                            if forced is not None:
+                                (pn, kind, fn), key = forced[2], forced[3]
+                            z = np.zeros((2, D + 1), dtype=np.float64)
+                            path = os.path.join(d, fn)
+                            if kind == "npy":
+                                with open(path, "wb") as f:
+                                    np.save(f, z)
+                            elif kind == "raw":
+                                z.tofile(path)
+                            else:
+                                with open(path, "wb") as f:
+                                    np.savez(f, **{key or "arr_0": z})
+                            ev.update(p={"name": pn, "kind": kind}, key=key, D=D, file=inspect_file(path, kind))
                         elif op == "save":
                             pn, kind, fn = rng.choice(PATHS)
                             key = rng.choice(["", "", "k", "arr_1"]) if kind == "npz" else ""
@@ -272,6 +324,10 @@ def check_apply(run, obj, bag, base, norm_var, nprng, ev):
     D = len(st["sum"])
     for shape, axis in (((4, D), -1), ((D, 3), 0), ((2, D, 3), 1), ((D,), -1)):
         x = nprng.randint(-5, 6, size=shape).astype(np.float32 if shape[0] == 4 else np.float64)
+        centre = np.round(np.array(st["sum"], dtype=np.float64) / st["n"])
+        sl_ = [None] * x.ndim
+        sl_[axis % x.ndim] = slice(None)
+        x = (x + centre[tuple(sl_)]).astype(x.dtype)  # probes near the data
         x.flags.writeable = False
         with warnings.catch_warnings():
             warnings.simplefilter("ignore")
@@ -281,7 +337,8 @@ def check_apply(run, obj, bag, base, norm_var, nprng, ev):
                 run.violation({"kind": "apply_raised_with_stats", "shape": list(shape), "axis": axis, "error": repr(e), "after": ev})
                 return
         want = expected_apply(st, x, axis % x.ndim, norm_var)
-        if got.dtype != np.float64 or got.shape != want.shape or not np.allclose(got, want, rtol=1e-12, atol=1e-12):
+        tol = tolerance(st)
+        if got.dtype != np.float64 or got.shape != want.shape or not np.allclose(got, want, rtol=tol, atol=tol):
             run.violation({"kind": "apply_differs_from_statistics_given", "shape": list(shape), "axis": axis, "norm_var": norm_var,
                            "stats": st, "result_dtype": str(got.dtype), "after": ev})
             return
